@@ -1,3 +1,6 @@
 import IdpyVerif.Base
-import IdpyVerif.Model.LV
-import IdpyVerif.Proofs.LV
+import IdpyVerif.Props.C02
+import IdpyVerif.Props.C03
+import IdpyVerif.Props.C05
+import IdpyVerif.Props.C14
+import IdpyVerif.Props.C17
